@@ -460,8 +460,8 @@ Proof.
   exists h'. eexists. split; [exact Ev|].
   set (sub := LNode l nm cm (l1 ++ Some (e, ei, LNode r nmr cmr (s1 ++ None :: s2)) :: l2)) in *.
   set (new := LNode l nm cm (l1 ++ Some (e, halve ei, graft_wrap (hnextn h) (S (hnextn h)) (hnexte h) (S (hnexte h)) name ei (LNode r nmr cmr (s1 ++ None :: s2))) :: l2)).
-  pose proof (GF_in_new_n h lt name R p l nm cm l1 l2 e ei r nmr cmr s1 s2 Hsub) as InN. fold new in InN. fold sub in InN.
-  pose proof (GF_in_new_e h lt name R p l nm cm l1 l2 e ei r nmr cmr s1 s2 Hsub) as InE. fold new in InE. fold sub in InE.
+  pose proof (GF_in_new_n h name l nm cm l1 l2 e ei r nmr cmr s1 s2) as InN. fold new in InN. fold sub in InN.
+  pose proof (GF_in_new_e h name l nm cm l1 l2 e ei r nmr cmr s1 s2) as InE. fold new in InE. fold sub in InE.
   destruct (GF_sub_nd h lt R p l nm cm l1 l2 e ei r nmr cmr s1 s2 Hsub) as [NdS NedS]. fold sub in NdS, NedS.
   assert (SubN : forall y, In y (lids sub) -> In y (lids lt)) by (intros y Hy; eapply lsubs_sub_lids; eassumption).
   assert (SubE : forall y, In y (leids sub) -> In y (leids lt)) by (intros y Hy; eapply lsubs_sub_leids; eassumption).
